@@ -61,14 +61,15 @@ Canon(c) == CASE c.t = "int" -> ToString(c.n)
 (* ------------------------------------------------------------------ (3) delivery matrix *)
 \* "dict_rows": the dict given as rows only (no <sheet>_header keys): the columns are then the keys of the rows, in order of first
 \* appearance - the content is the same but the column ORDER of sparse sheets is not part of it
-Formats == {"md", "csv", "xls", "xlsx", "xlsm", "dict", "dict_rows"}
+\* "csv_ragged": the CSV written without the trailing empty cells of each row (rows shorter than the header row)
+Formats == {"md", "csv", "csv_ragged", "xls", "xlsx", "xlsm", "dict", "dict_rows"}
 \* "bytesio_end": a stream the caller has just written (position at the end);  "bytesio_twice": a stream already converted once
 \* "path_stem": a path whose stem is not "data" (the stem supplies the default form id);  "path_stem_odd": the same stem under a suffix
 \* that is not one of the lower-case supported ones (census.XLSX), the format given by file_type.  The two are compared with each other.
 Deliveries == {"path", "bytes", "bytesio", "bytesio_end", "bytesio_twice", "file", "str", "path_stem", "path_stem_odd"}
 \* which combinations exist: text formats can be passed as str; binary ones cannot; a dict is only itself
 ValidDelivery(f, d) == CASE f \in {"dict", "dict_rows"} -> d = "str"      \* placeholder delivery for the dict itself
-                         [] f \in {"md", "csv"} -> TRUE
+                         [] f \in {"md", "csv", "csv_ragged"} -> TRUE
                          [] OTHER -> d # "str"
 \* file_type may be given explicitly for in-memory data (a path carries its suffix)
 ValidFT(f, d, ft) == IF f \in {"dict", "dict_rows"} THEN ~ft ELSE (d = "path_stem_odd" => ft)
